@@ -3,7 +3,7 @@
    regenerated from the Go source on every check.
 
    Lexer state: the Go lexer is (Source, cursor); the model carries (pos, rest) with rest = skipn pos Source.
-   getChar(cursor+k) is [nth k rest 0] (RuneEOF = 0 beyond the end), Next() drops one character, SetCursor(savepoint)
+   getChar(cursor+k) is [nth k rest g_RuneEOF] (RuneEOF beyond the end), Next() drops one character, SetCursor(savepoint)
    restores a saved (pos, rest).
    Outside the model (result [TUnsupported]): string literals (a token starting with a quote), line breaks with their
    indentation bookkeeping, leading SP/TAB indentation of the first line, and the body of a `注…：` comment. *)
@@ -15,8 +15,8 @@ Open Scope Z_scope.
 
 Definition mem (x : Z) (l : list Z) : bool := existsb (Z.eqb x) l.
 
-Definition cur (rest : list Z) : Z := hd 0 rest.                       (* l.GetCurrentChar() *)
-Definition peekn (k : Z) (rest : list Z) : Z := nth (Z.to_nat k) rest 0. (* l.Peek() = peekn 1, Peek2, Peek3 *)
+Definition cur (rest : list Z) : Z := hd g_RuneEOF rest.               (* l.GetCurrentChar(): RuneEOF past the end *)
+Definition peekn (k : Z) (rest : list Z) : Z := nth (Z.to_nat k) rest g_RuneEOF. (* l.Peek() = peekn 1, Peek2, Peek3 *)
 
 Definition is_ws (c : Z) : bool := mem c g_whiteSpaces.                (* syntax.IsWhiteSpace *)
 Definition is_id_char (c : Z) : bool := bool_of (id_in_range gen_id_guard_max gen_id_range c). (* isIdentifierChar *)
@@ -138,6 +138,11 @@ Definition parse_operators (rest : list Z) (pos : Z) : option tres :=
       if is_delim chn then single t else None
   else Some (TErr pos).
 
+(* The functions below take the keyword recogniser [kw] as a parameter: the implementation model instantiates it with
+   [parse_keyword g_kw_tree] (the regenerated decision tree), the documented lexer with [longest_kw doc_keywords]. *)
+Section WithKeywordRecogniser.
+Variable kw : list Z -> option (Z * Z).
+
 (* ------------------------------------------------------------------ parseIdentifier *)
 (* the loop after the first character; r = source after the last accepted character, pos = index of hd r *)
 Definition comment_ahead (r : list Z) : bool :=
@@ -145,7 +150,7 @@ Definition comment_ahead (r : list Z) : bool :=
 
 Definition ident_stop (r : list Z) : bool :=
   is_ws (cur r)
-  || (match parse_keyword g_kw_tree r with Some _ => true | None => false end)
+  || (match kw r with Some _ => true | None => false end)
   || comment_ahead r
   || mem (cur r) g_terminateMarkers.
 
@@ -194,7 +199,7 @@ Definition generic_token (rest : list Z) (pos : Z) : tres :=
     match (if mem ch g_markOperators then parse_operators rest pos else None) with
     | Some t => t
     | None =>
-        match parse_keyword g_kw_tree rest with
+        match kw rest with
         | Some (wl, ty) => TTok ty pos (pos + wl) [] (skipn (Z.to_nat wl) rest)
         | None => parse_identifier rest pos
         end
@@ -230,6 +235,12 @@ Fixpoint tokens (fuel : nat) (rest : list Z) (pos : Z) : list token * tend :=
 Definition lex (src : list Z) : list token * tend :=
   if mem (cur src) [g_RuneTAB; g_RuneSP] then ([], EUnsupported)
   else tokens (S (length src)) src 0.
+
+End WithKeywordRecogniser.
+
+(* the lexer of the implementation: keywords by the regenerated parseKeyword decision tree *)
+Definition gkw : list Z -> option (Z * Z) := parse_keyword g_kw_tree.
+Definition lex_impl (src : list Z) : list token * tend := lex gkw src.
 
 (* encoding for the correspondence check: [[end code; cursor]; [type; start; end; literal...]; ...] *)
 Definition encode_end (t : tend) : list Z :=
